@@ -498,6 +498,14 @@ func c20prog(c *Ctx, p *Prog) {
 							}
 							elem := a.Type().Underlying().(*types.Pointer).Elem()
 							if nt, isN := elem.(*types.Named); isN && nt.Obj().Pkg() != nil && (nt.Obj().Pkg().Path() == "sync" || nt.Obj().Pkg().Path() == "sync/atomic") {
+								// (a sync.Pool hands objects out to its callers: the pool itself is safe,
+								// an object that is still used after it was put back is shared with
+								// whoever gets it next)
+								if nt.Obj().Name() == "Pool" && callee0(p, call) == "(*sync.Pool).Put" {
+									if use := usedAfterPut(call); use != nil {
+										bad = append(bad, fmt.Sprintf("an object is put back into the pool at %s and still used at %s in %s (concurrent callers get the same object and race on it)", p.InstrPos(in), p.InstrPos(use), p.FnKey(fn)))
+									}
+								}
 								continue
 							}
 							bad = append(bad, fmt.Sprintf("its address is handed to %s at %s in %s (shared mutable state: concurrent callers race on it)", p.calleeName(call.Common()), p.InstrPos(in), p.FnKey(fn)))
@@ -693,4 +701,78 @@ func checkPointerReceivers(c *Ctx, p *Prog, rule string, sel func(*Disc) bool) {
 			c.R.Check(isPtr, rule, p.Name+":"+d.Name+"."+m.Name()+"#receiver", p.Pos(m.Pos()), "pointer receiver", "method "+m.Name()+" of "+d.Name+" has a value receiver: every call copies the whole struct (an unsynchronised read of every field the goroutine writes), and what the method stores into the copy - a flag, the buffer - is lost")
 		}
 	}
+}
+
+func callee0(p *Prog, call ssa.CallInstruction) string {
+	if cal := p.Callee(call); cal != nil {
+		return p.funcDisplay(cal)
+	}
+	return ""
+}
+
+// usedAfterPut: put is a (non-deferred) pool.Put(x); returns an instruction that uses x (or what
+// x was asserted / converted from) and can execute after the Put.
+func usedAfterPut(put ssa.CallInstruction) ssa.Instruction {
+	if _, isDefer := put.(*ssa.Defer); isDefer {
+		return nil
+	}
+	args := put.Common().Args
+	if len(args) < 2 {
+		return nil
+	}
+	// the object and its aliases: through MakeInterface / TypeAssert / ChangeType / phi-free chains
+	roots := map[ssa.Value]bool{}
+	var add func(v ssa.Value, depth int)
+	add = func(v ssa.Value, depth int) {
+		if v == nil || roots[v] || depth > 6 {
+			return
+		}
+		roots[v] = true
+		switch x := v.(type) {
+		case *ssa.MakeInterface:
+			add(x.X, depth+1)
+		case *ssa.TypeAssert:
+			add(x.X, depth+1)
+		case *ssa.ChangeType:
+			add(x.X, depth+1)
+		case *ssa.Extract:
+			add(x.Tuple, depth+1)
+		}
+		if refs := v.Referrers(); refs != nil {
+			for _, r := range *refs {
+				switch y := r.(type) {
+				case *ssa.TypeAssert:
+					add(y, depth+1)
+				case *ssa.MakeInterface:
+					add(y, depth+1)
+				case *ssa.ChangeType:
+					add(y, depth+1)
+				case *ssa.Extract:
+					add(y, depth+1)
+				}
+			}
+		}
+	}
+	add(args[1], 0)
+	for v := range roots {
+		refs := v.Referrers()
+		if refs == nil {
+			continue
+		}
+		for _, r := range *refs {
+			if r == ssa.Instruction(put) {
+				continue
+			}
+			if _, isDbg := r.(*ssa.DebugRef); isDbg {
+				continue
+			}
+			if rv, isV := r.(ssa.Value); isV && roots[rv] {
+				continue // an alias step, judged by its own uses
+			}
+			if instrReachableFrom(put, r) {
+				return r
+			}
+		}
+	}
+	return nil
 }
